@@ -4,6 +4,37 @@
   All statements are about the executable model `Batchie.Screen` (Model/Screen.lean), which the
   correspondence harness `harness/c01.py` runs against `batchie.data.Screen(...)` on every check.
   Lists, names, doses, arity and the control name are arbitrary everywhere.
+
+  CLAUSE MAP (property text → theorems; `mk? r = .ok s` is "the screen s can be constructed from the arguments r")
+
+  1. "each experiment's treatment id decodes through the screen's treatment mapping to exactly that experiment's (name, dose)"
+       → `C01_decode` (every cell of every built screen, with or without supplied mappings), `C01_shape` (the id table has the
+         shape of the name table); the mapping is a function on keys: `C01_fresh_keys_nodup_sorted`, `C01_built_isBatchie`.
+  2. "a treatment carries the control sentinel (-1) exactly when its name is the control name or its dose is not positive"
+       → `C01_control_iff` (no mapping supplied), `C01_control_iff_supplied` (mapping batchie produced under the screen's control
+         name), table level `C01_control_iff_table`. (For a mapping produced under ANOTHER control name the clause is false in the
+         code too — the ids are followed verbatim; such inputs are outside the quantifier.)
+  3. "non-control treatment ids … are the dense range 0..n-1 with equal ids iff equal (name, dose)"
+       → table: `C01_treat_dense`, `C01_treat_count`, `C01_treat_inj`, `C01_cumsum_is_filter_index`, `C01_renumber_spec`;
+         cells of the screen: `C01_cells_dense_fresh` (the ids used are exactly 0..n_unique_treatments-1), `C01_cell_ids_eq_iff`
+         (cell against cell, hypothesis `IsBatchieTMap s.tmap` discharged for every in-quantifier screen by `C01_built_isBatchie`).
+  4. "sample ids and plate ids are each the dense range 0..n-1 with equal ids iff equal name"
+       → table: `C01_sample_dense`, `C01_sample_inj`; rows of the screen: `C01_row_ids_dense`, `fresh1d_ids_dense`,
+         `C01_row_ids_eq_iff` (row against row; plates always, samples for a fresh or batchie-produced sample mapping),
+         decode `C01_decode_samples`, `C01_decode_plates`.
+  5. "a supplied mapping is followed verbatim" → `C01_supplied_verbatim`;
+     "(or rejected if it does not cover the data or is not dense)" → `C01_supplied_rejected`, `C01_supplied_accepted`,
+         `Screen.isZeroIndexed_sound` / `_complete`; "that batchie itself produced for a superset" is accepted → `C01_superset_accepted`.
+  6. "the experiment-space sizes derived from a screen strictly bound every id in it" → `C01_space_bounds`, `C01_space_bounds_fresh`
+         (sizes = `nUniqueTreatments` / `nUniqueSamples`, executed against `ExperimentSpace` by the driver op `espace`).
+  7. "for every screen that can be constructed" → `Screen.mk?_ok_iff` (exact characterisation of success), `C01_fresh_accepted`
+         (every well-shaped input without mappings is constructed), `Screen.mk?_eq_mkStaged`;
+         the only non-Python result of the model, `.other`, is characterised exactly (`C01_other_iff_duplicate`: a cell key / sample name
+         of the data listed twice in a supplied mapping) and never occurs for a mapping with pairwise different keys, in particular never
+         for a batchie-produced one (`C01_never_other`).
+  harness-only: independence of memory layout / dtype width / writability and "inputs unchanged" (no arrays in a functional model);
+         the sign of a -0.0 dose (doses are exact rationals); `ExperimentSpace.save_h5`/`load_h5` carrying the mapping (container fidelity
+         of h5py, np.char.encode/decode); pandas' drop_duplicates / sort_values / merge agreeing with eraseDups / mergeSort / lookup (tie).
 -/
 import Batchie.Lemmas.EncodeAudit
 
@@ -441,6 +472,97 @@ theorem C01_row_ids_dense (r : Raw) (s : Screen) (h : mk? r = .ok s) (x : Int) :
     exact fresh1d_ids_dense r.snames s.sids s.smap this x
   · exact fresh1d_ids_dense r.pnames s.pids s.pmap m.penc x
 
+/-- every screen inside the quantifier (no mapping, or a mapping batchie produced) carries a batchie-produced treatment / sample
+    mapping: discharges the hypothesis of `C01_cell_ids_eq_iff`, `C01_space_bounds` and `C01_row_ids_eq_iff` for constructed screens -/
+theorem C01_built_isBatchie (r : Raw) (s : Screen) (h : mk? r = .ok s) :
+    ((∀ m, r.tmap = some m → IsBatchieTMap m) → IsBatchieTMap s.tmap) ∧
+    ((∀ m, r.smap = some m → IsBatchieSMap m) → IsBatchieSMap s.smap) ∧ IsBatchieSMap s.pmap := by
+  have m := (mk?_ok_iff r s).mp h
+  refine ⟨fun ht => ?_, fun hs => ?_, ⟨r.pnames, m.pmap_eq.1⟩⟩
+  · rw [m.tmap_eq]
+    cases htm : r.tmap with
+    | none => exact ⟨r.ctrl, allKeys r, rfl⟩
+    | some tm => exact ht tm htm
+  · rw [m.smap_eq]
+    cases hsm : r.smap with
+    | none => exact ⟨r.snames, rfl⟩
+    | some sm => exact hs sm hsm
+
+theorem isBatchieSMap_nodup (sm : SMap) (h : IsBatchieSMap sm) : (sm.map (·.1)).Nodup ∧ (sm.map (·.2)).Nodup := by
+  obtain ⟨xs, rfl⟩ := h
+  constructor
+  · rw [freshSMap_names]; exact sortedNames_nodup xs
+  · rw [freshSMap_ids, List.Nodup, List.pairwise_map]
+    exact List.nodup_range.imp (fun h h' => h (Int.ofNat_inj.mp h'))
+
+/-- **Equal sample / plate ids iff equal names, row against row.** In every built screen two rows carry the same plate id iff
+    they carry the same plate name, and (when the sample mapping is fresh or batchie-produced) the same sample id iff the same
+    sample name. -/
+theorem C01_row_ids_eq_iff (r : Raw) (s : Screen) (h : mk? r = .ok s) (i j : Nat) (hi : i < s.snames.length) (hj : j < s.snames.length) :
+    ∃ (a1 : i < s.sids.length) (a2 : j < s.sids.length) (b1 : i < s.pnames.length) (b2 : j < s.pnames.length)
+      (c1 : i < s.pids.length) (c2 : j < s.pids.length),
+      (IsBatchieSMap s.smap → (s.sids[i] = s.sids[j] ↔ s.snames[i] = s.snames[j])) ∧
+      (s.pids[i] = s.pids[j] ↔ s.pnames[i] = s.pnames[j]) := by
+  have sh := C01_shape r s h
+  have b1 : i < s.pnames.length := by rw [sh.2.2.1, ← sh.2.1]; exact hi
+  have b2 : j < s.pnames.length := by rw [sh.2.2.1, ← sh.2.1]; exact hj
+  obtain ⟨a1, hs1⟩ := C01_decode_samples r s h i hi
+  obtain ⟨a2, hs2⟩ := C01_decode_samples r s h j hj
+  obtain ⟨c1, hp1⟩ := C01_decode_plates r s h i b1
+  obtain ⟨c2, hp2⟩ := C01_decode_plates r s h j b2
+  have key : ∀ (sm : SMap) (n₁ n₂ : Name) (x₁ x₂ : Int), IsBatchieSMap sm → (n₁, x₁) ∈ sm → (n₂, x₂) ∈ sm → (x₁ = x₂ ↔ n₁ = n₂) := by
+    intro sm n₁ n₂ x₁ x₂ hb h1 h2
+    obtain ⟨hn, hid⟩ := isBatchieSMap_nodup sm hb
+    constructor
+    · intro hx
+      have := inj_of_nodup_map (·.2) sm hid _ _ h1 h2 hx
+      exact (Prod.mk.inj this).1
+    · intro hx
+      have := inj_of_nodup_map (·.1) sm hn _ _ h1 h2 hx
+      exact (Prod.mk.inj this).2
+  exact ⟨a1, a2, b1, b2, c1, c2, fun hb => key s.smap _ _ _ _ hb hs1 hs2,
+    key s.pmap _ _ _ _ (C01_built_isBatchie r s h).2.2 hp1 hp2⟩
+
+/-! ### the model's `.other` result (an id array longer than the data) -/
+
+/-- **Exactly when `Screen.mk?` answers `.other`**: all shape and density checks pass, every cell key is listed in the mapping that
+    is used, and some cell key of the data is listed in it TWICE OR MORE — or all cell keys are listed once, every sample name is
+    listed, and some sample name of the data is listed twice or more. (There the real constructor raises in `np.split` or builds id
+    arrays with more rows than the screen; such mappings are outside the property's quantifier.) -/
+theorem C01_other_iff_duplicate (r : Raw) :
+    mk? r = .error .other ↔
+      WellShaped r ∧ tmapBad r = false ∧ smapBad r = false ∧ (∀ k ∈ allKeys r, tLookup (effTMap r) k ≠ []) ∧
+        ((∃ k ∈ allKeys r, 2 ≤ (tLookup (effTMap r) k).length) ∨
+         ((∀ k ∈ r.snames, sLookup (effSMap r) k ≠ []) ∧ ∃ k ∈ r.snames, 2 ≤ (sLookup (effSMap r) k).length)) :=
+  mk?_other_iff r
+
+/-- **Mappings with pairwise different keys never give `.other`** — in particular no mapping batchie produced, and no absent one:
+    on every input inside the quantifier the model answers what Python answers (a screen or `ValueError` / `IndexError`). -/
+theorem C01_never_other (r : Raw)
+    (ht : ∀ m, r.tmap = some m → (m.map tKey).Nodup) (hs : ∀ m, r.smap = some m → (m.map (·.1)).Nodup) :
+    mk? r ≠ .error .other := by
+  intro h
+  obtain ⟨_, _, _, _, hdup⟩ := (mk?_other_iff r).mp h
+  have htn : ((effTMap r).map tKey).Nodup := by
+    unfold effTMap
+    cases htm : r.tmap with
+    | none => simp only; rw [freshTMap_keys]; exact sortedKeys_nodup _
+    | some m => exact ht m htm
+  have hsn : ((effSMap r).map (·.1)).Nodup := by
+    unfold effSMap
+    cases hsm : r.smap with
+    | none => simp only; rw [freshSMap_names]; exact sortedNames_nodup _
+    | some m => exact hs m hsm
+  rcases hdup with ⟨k, _, h2⟩ | ⟨_, k, _, h2⟩
+  · have := tLookup_length_le_one _ htn k; omega
+  · have := sLookup_length_le_one _ hsn k; omega
+
+theorem C01_batchie_never_other (r : Raw)
+    (ht : ∀ m, r.tmap = some m → IsBatchieTMap m) (hs : ∀ m, r.smap = some m → IsBatchieSMap m) : mk? r ≠ .error .other := by
+  apply C01_never_other r
+  · intro m hm; obtain ⟨ctrl, data, rfl⟩ := ht m hm; rw [freshTMap_keys]; exact sortedKeys_nodup _
+  · intro m hm; exact (isBatchieSMap_nodup m (hs m hm)).1
+
 /-! ### construction succeeds where it should -/
 
 /-- without supplied mappings every well-shaped input (equal lengths, rows of length `arity`, plate-uniform mask)
@@ -508,5 +630,10 @@ example : renumber [false, true, false, false, true, false] = [0, -1, 1, 2, -1, 
 example : exRawSup.tmap = some (freshTMap exRawSup.ctrl (allKeys exRaw ++ [([9], 4)])) := rfl
 example : ∃ s, mk? exRaw = .ok s ∧ IsBatchieTMap s.tmap ∧ exRaw.tmap = none ∧ exRaw.smap = none :=
   ⟨_, C01_fresh_accepted exRaw exRaw_wellShaped rfl rfl, ⟨_, _, rfl⟩, rfl, rfl⟩
+
+/-- `C01_other_iff_duplicate` is not vacuous: a sample mapping that lists the name `[7]` twice (ids dense, names covered) -/
+example : ∃ k ∈ exRaw.snames, 2 ≤ (sLookup ([([5], 0), ([7], 1), ([7], 0)] : SMap) k).length := ⟨[7], by decide, by decide⟩
+/-- hypotheses of `C01_never_other` hold for `exRaw` (no mapping supplied) -/
+example : mk? exRaw ≠ .error .other := C01_never_other exRaw (fun m h => by cases h) (fun m h => by cases h)
 
 end Batchie.Props.C01
